@@ -492,6 +492,11 @@ impl<'tcx> Ex<'tcx> {
                 o.push(("promoted", J::Int(p.as_usize() as i128)));
             }
         }
+        if let Some(sdid) = c.check_static_ptr(tcx) {
+            o.push(("def", J::Str(self.path(sdid))));
+            o.push(("static", J::Bool(true)));
+            return J::Obj(o);
+        }
         let is_promoted = matches!(c.const_, Const::Unevaluated(uv, _) if uv.promoted.is_some());
         if !is_promoted {
             if let Ok(v) = c.const_.eval(tcx, tenv, c.span) {
